@@ -21,6 +21,6 @@ echo "demo_clean_exit=$DC demo_mutated_exit=$DM suite_with_change_exit=$SU" | te
 tail -5 "$OUT/demo_mut.log" >> "$R"
 for P in "$@"; do
   VERIF_REPO="$WT" VERIF_OUT="$OUT" timeout 3000 /verif/check "$P" --tier quick > "$OUT/check_$P.log" 2>&1; C=$?
-  echo "check $P exit=$C :: $(grep -E 'VIOLATION|KNOWN' "$OUT/check_$P.log" | head -3 | tr '\n' ' ') :: $(tail -1 "$OUT/check_$P.log")" | tee -a "$R"
+  echo "check $P exit=$C :: $((grep -E 'VIOLATION' "$OUT/check_$P.log" | head -3; grep -c KNOWN "$OUT/check_$P.log" | sed 's/^/known-finding-lines=/') | tr '\n' ' ') :: $(tail -1 "$OUT/check_$P.log")" | tee -a "$R"
   for f in $(grep -o 'replay=[^ ]*' "$OUT/check_$P.log" | cut -d= -f2 | head -2); do echo "--- $f"; head -c 3000 "$f"; done >> "$R"
 done
